@@ -2,7 +2,10 @@
 
 package state
 
-import "strconv"
+import (
+	"reflect"
+	"strconv"
+)
 
 // ---- the plain relational model ------------------------------------------------
 
@@ -199,7 +202,7 @@ func vNickMatches(m *vModel, i int, n *Nick) bool {
 	if n == nil || n.Modes == nil || n.Channels == nil {
 		return false
 	}
-	ok := n.Nick == m.nName[i] && n.Ident == m.nId[i] && n.Host == m.nHost[i] && n.Name == m.nReal[i] && *n.Modes == m.nMode[i]
+	ok := n.Nick == m.nName[i] && n.Ident == m.nId[i] && n.Host == m.nHost[i] && n.Name == m.nReal[i] && reflect.DeepEqual(*n.Modes, m.nMode[i])
 	cnt := 0
 	for j := 0; j < vNC; j++ {
 		if m.mem[i][j] {
@@ -208,7 +211,7 @@ func vNickMatches(m *vModel, i int, n *Nick) bool {
 			if !found || cp == nil {
 				return false
 			}
-			ok = ok && *cp == m.priv[i][j]
+			ok = ok && reflect.DeepEqual(*cp, m.priv[i][j])
 		}
 	}
 	return ok && len(n.Channels) == cnt
@@ -218,7 +221,7 @@ func vChanMatches(m *vModel, j int, c *Channel) bool {
 	if c == nil || c.Modes == nil || c.Nicks == nil {
 		return false
 	}
-	ok := c.Name == m.cName[j] && c.Topic == m.cTop[j] && *c.Modes == m.cMode[j]
+	ok := c.Name == m.cName[j] && c.Topic == m.cTop[j] && reflect.DeepEqual(*c.Modes, m.cMode[j])
 	cnt := 0
 	for i := 0; i < vNN; i++ {
 		if m.mem[i][j] {
@@ -227,7 +230,7 @@ func vChanMatches(m *vModel, j int, c *Channel) bool {
 			if !found || cp == nil {
 				return false
 			}
-			ok = ok && *cp == m.priv[i][j]
+			ok = ok && reflect.DeepEqual(*cp, m.priv[i][j])
 		}
 	}
 	return ok && len(c.Nicks) == cnt
@@ -292,7 +295,7 @@ func vAgree(st *stateTracker, m *vModel, extra []string) {
 				cp, ok := st.IsOn(m.cName[j], m.nName[i])
 				vAssert(ok == m.mem[i][j], "IsOn")
 				if ok && m.mem[i][j] {
-					vAssert(cp != nil && *cp == m.priv[i][j], "IsOn-privs")
+					vAssert(cp != nil && reflect.DeepEqual(*cp, m.priv[i][j]), "IsOn-privs")
 				}
 			}
 		}
